@@ -593,12 +593,13 @@ Section ChanQ.
           -- rewrite F4. cbn [thr_goto t_ops]. apply (r_ops _ _ _ R).
           -- rewrite F4. cbn [thr_goto t_res]. apply (r_res _ _ _ R).
         * (* stutter *)
+          rewrite Hw, Hr in Dn.
           exists a. split; [left; reflexivity|].
           apply (rel_build fut st a q f); try assumption; rewrite ?Ex; cbn [x_c x_m]; try apply R; try reflexivity.
           -- rewrite Eabs. apply (r_q _ _ _ R).
-          -- rewrite Rq. unfold apc. rewrite ?Ex. cbn [x_c x_m]. rewrite Epc, Es, Eq', Hv, <- Hw, <- Hr.
-             rewrite Hw, Hr in *. destruct (whold mq'); [reflexivity|]. destruct (rhold mq'); [reflexivity|].
-             rewrite Dq, Fn. rewrite <- Ex, Dn. reflexivity.
+          -- rewrite Rq. unfold apc. cbn [x_c x_m]. rewrite Epc, Es, Eq', Hv, Hw, Hr.
+             destruct (whold mq); [reflexivity|]. destruct (rhold mq); [reflexivity|].
+             rewrite Dq, Fn, <- Ex, Dn. reflexivity.
       + (* B: successful tail CAS = the atomic push *)
         assert (Ex : x_step c Y st q f = mkX (x_c st) mst') by (unfold x_step; rewrite Epc, Es; fold mst'; rewrite Eq'; reflexivity).
         rewrite Hw, Hr, Dq, Fn in Rq.
